@@ -16,10 +16,14 @@
 EXTENDS Stream, Json, TLC
 
 CONSTANTS Tier,     \* "quick" | "thorough"
-          Mode      \* "bfs" (exhaustive up to the bounds) | "walk" (random walks, TLC -simulate)
+          Mode      \* "bfs" (all operation sequences up to the bounds, printed as vectors) |
+                    \* "walk" (random walks, TLC -simulate, printed) |
+                    \* "inv" (no history, no bound on the number of operations: the complete finite state
+                    \*        graph of the stream machine over the payloads; only the invariants are checked)
 
 Quick == Tier = "quick"
 Walk  == Mode = "walk"
+Inv   == Mode = "inv"
 
 RECURSIVE SeqsUpTo(_, _)
 SeqsUpTo(S, n) ==
@@ -42,8 +46,8 @@ O(op) == Op(op, 0, <<>>)
 (* families of read operations (a behaviour uses one family) *)
 Families(typ) ==
   IF typ = "text"
-  THEN IF Walk THEN {"all"} ELSE IF Quick THEN {"t1"} ELSE {"t1", "t2"}
-  ELSE IF Walk THEN {"all"} ELSE IF Quick THEN {"b1"} ELSE {"b1", "b2"}
+  THEN IF Walk \/ Inv THEN {"all"} ELSE IF Quick THEN {"t1"} ELSE {"t1", "t2"}
+  ELSE IF Walk \/ Inv THEN {"all"} ELSE IF Quick THEN {"b1"} ELSE {"b1", "b2"}
 ReadOps(fam) ==
   CASE fam = "t1" -> {O("get_char"), O("peek_char"), O("get_code"), O("peek_code"), Op("get_n_chars", 2, <<>>),
                       O("at_end"), O("read_term")}
@@ -67,6 +71,7 @@ WriteOps(typ) ==
 (* bounds: number of read operations, by length of the content *)
 ReadBound(origin, n) ==
   IF Walk THEN 30
+  ELSE IF Inv THEN 1
   ELSE IF origin # "py" THEN 2
   ELSE IF Quick THEN (IF n <= 1 THEN 4 ELSE 3)
   ELSE (IF n <= 1 THEN 5 ELSE IF n = 2 THEN 4 ELSE 3)
@@ -84,13 +89,13 @@ Meta(origin, fam, init) == [origin |-> origin, fam |-> fam, init |-> init, nr |-
 Init ==
   /\ hist = <<>> /\ aux = [cb |-> 0, cn |-> 0]
   /\ \E typ \in {"text", "binary"} : \E fam \in Families(typ) :
-     \E e \in (IF Walk THEN EofActions ELSE {"any"}) :
+     \E e \in (IF Walk \/ Inv THEN EofActions ELSE {"any"}) :
        \/ \E p \in (IF typ = "text" THEN TextPayloads ELSE BinPayloads) :
             LET bytes == IF typ = "text" THEN Utf8Seq(p) ELSE p IN
             s = NewStream(typ, e, "r", bytes) /\ meta = Meta("py", fam, bytes)
-       \/ /\ fam \in {"t1", "b1", "all"}
+       \/ /\ fam \in {"t1", "b1", "all"} /\ ~Inv
           /\ s = NewStream(typ, e, "w", <<>>) /\ meta = Meta("pl", fam, <<>>)
-       \/ /\ fam \in {"t1", "b1", "all"}
+       \/ /\ fam \in {"t1", "b1", "all"} /\ ~Inv
           /\ \E p \in (IF typ = "text" THEN {<<233>>, <<97, 10>>} ELSE {<<255>>}) :
                LET bytes == IF typ = "text" THEN Utf8Seq(p) ELSE p IN
                s = NewStream(typ, e, "w", bytes) /\ meta = Meta("ap", fam, bytes)
@@ -118,8 +123,11 @@ ReadStep ==
        LET s1 == [s EXCEPT !.eofa = e] IN
        /\ Enabled(s1, o)
        /\ LET d == Do(s1, o) IN
-          /\ s' = d.s /\ hist' = Append(hist, StepRec(o, d)) /\ aux' = AuxAfter(aux, o, d)
-          /\ meta' = [meta EXCEPT !.nr = @ + 1]
+          /\ Assert(d.reset \/ o.op = "seek" \/ d.s.pos >= s.pos, "the position decreased without reset or seek")
+          /\ Assert(\A i \in 1..Len(d.alts) : d.alts[i].pos >= d.s.pos - 1 /\ d.alts[i].pos <= d.s.pos + 1, "alternatives")
+          /\ s' = d.s /\ aux' = AuxAfter(aux, o, d)
+          /\ hist' = IF Inv THEN hist ELSE Append(hist, StepRec(o, d))
+          /\ meta' = IF Inv THEN meta ELSE [meta EXCEPT !.nr = @ + 1]
 
 WriteStep ==
   /\ s.mode = "w"
@@ -149,10 +157,7 @@ AtEndInv  == s.mode = "r" => \A t \in Concrete(s) : AtEndAgrees(t)
 WfInv     == WellFormed(s)
 (* position = bytes consumed, line count = newlines consumed (computed from the delivered results) *)
 PosInv    == s.mode = "r" => s.pos = aux.cb /\ s.lines = aux.cn
-(* the position never decreases except by a reset, a seek or re-opening *)
-MonoInv   == \A i \in 2..Len(hist) :
-               \/ hist[i].reset \/ hist[i].op \in {"seek", "reopen"} \/ hist[i - 1].op \in WriteOpNames
-               \/ hist[i].alts[1].pos >= hist[i - 1].alts[1].pos
+(* (the position never decreases except by a reset or a seek: asserted on every transition in ReadStep) *)
 (* a write-then-read round trip delivers the written characters: after re-opening, the content is the  *)
 (* UTF-8 image of everything written (in order)                                                        *)
 RECURSIVE Written(_, _)
@@ -161,5 +166,5 @@ Written(h, typ) ==
   ELSE LET x == Head(h) IN
        (IF x.op \in WriteOpNames /\ x.r.k = "ok" THEN (IF typ = "text" THEN Utf8Seq(x.v) ELSE x.v) ELSE <<>>)
        \o Written(Tail(h), typ)
-RoundTripInv == s.mode = "r" => s.content = meta.init \o Written(hist, s.typ)
+RoundTripInv == s.mode = "r" /\ ~Inv => s.content = meta.init \o Written(hist, s.typ)
 =============================================================================
